@@ -85,12 +85,13 @@ def gen_case(run_seed: int, index: int, tier: str) -> dict:
         else:
             clause = 2 if (clause2_kinds and rng.random() < 0.3) else 1
         dk = rng.choice(clause2_kinds if clause == 2 else kinds)
-        C.build_decoder(spec, dk, {})
+        opts = {"precompute": False} if dk == "ml" and rng.random() < 0.3 else {}
+        C.build_decoder(spec, dk, opts)
     except C.Inadmissible as e:
         case["inadmissible"] = str(e)[:300]
         return case
     n, k = enc.code_length, enc.code_dimension
-    case.update({"decoder": dk, "dec_opts": {}, "advertised_d": d, "d_source": dsrc, "clause": clause})
+    case.update({"decoder": dk, "dec_opts": opts, "advertised_d": d, "d_source": dsrc, "clause": clause})
     B = rng.choice([1, 1, 2, 3, 4, 4, 8])
     case["B"] = B
     walk = n <= 15 and rng.random() < 0.5  # deterministic walk over messages / patterns of small codes
